@@ -131,6 +131,12 @@ func (c WTLengthSliceWrapper) Read(data []byte, ptr unsafe.Pointer, wt plenccore
 		return 0, fmt.Errorf("corrupt data looking for WTSlice count")
 	}
 
+	// Every element takes at least one byte (its length), so a count larger
+	// than the remaining data is corrupt. Check before allocating from it.
+	if count > uint64(len(data)-n) {
+		return 0, fmt.Errorf("slice count %d exceeds data length", count)
+	}
+
 	// Now make sure we have enough capacity in the slice
 	h := (*sliceHeader)(ptr)
 	if h.Cap < int(count) {
@@ -156,6 +162,9 @@ func (c WTLengthSliceWrapper) Read(data []byte, ptr unsafe.Pointer, wt plenccore
 			return 0, fmt.Errorf("invalid varint for slice entry %d", i)
 		}
 		offset += n
+		if s > uint64(len(data)-offset) {
+			return 0, fmt.Errorf("length %d of slice entry %d exceeds data length", s, i)
+		}
 
 		ptr := unsafe.Add(h.Data, i*int(c.EltSize))
 		n, err := c.Underlying.Read(data[offset:offset+int(s)], ptr, plenccore.WTLength)
